@@ -1002,7 +1002,7 @@ func scanNumber(l *lexer) (typ itemType, ok bool) {
 			// No signs for hexadecimals.
 			return
 		}
-		l.acceptRun("0x")
+		l.pos += 2 // the "0x" prefix
 		if !l.acceptRun(hexDigits) {
 			// Requires at least one digit.
 			return
